@@ -149,5 +149,79 @@ def g_cap(tier, seed):
                                 'oracles.c04:direct_env', {'env': {}, 'argkind': 'float'})]
 
 
+def g_argforms(tier, seed, only_cls=None):
+    """arguments in any angle class, in any mix with plain numbers, give the result of their decimal-degree values: vincdir is run on
+    the mixed arguments and on the decimal values (obtained through each object's own dec()) in the same path; the three outputs
+    must be identical terms (hp2dec/dec2hp summarised: C08)"""
+    import itertools
+    from checks.c15 import patched_angles, same
+    gc, gd, ga = _mods()
+    out = []
+    classes = ('HPAngle', 'GONAngle', 'DMSAngle', 'DDMAngle', 'DECAngle')
+    subsets = [s_ for n in (1, 2, 3) for s_ in itertools.combinations((0, 1, 2), n)]
+    if tier == 'quick':
+        combos = [(c, s_) for c in classes for s_ in ((0,), (1,), (2,), (0, 1, 2))]
+        combos = [cs for i, cs in enumerate(combos) if c_keep(i, seed)]
+    else:
+        combos = [(c, s_) for c in classes for s_ in subsets]
+
+    def obj(cls, pre, lo, hi):
+        """(angle object, symbolic quantity a caller would think of as its decimal value)"""
+        if cls == 'DECAngle':
+            return ga.DECAngle(fresh_real(pre + 'v', lo, hi))
+        if cls == 'HPAngle':
+            return ga.HPAngle(fresh_real(pre + 'hp', lo, hi))
+        if cls == 'GONAngle':
+            return ga.GONAngle(fresh_real(pre + 'g', lo, hi))
+        d = fresh_real(pre + 'd', 0, int(hi) - 1, is_int=True)
+        if cls == 'DMSAngle':
+            m, sec = fresh_real(pre + 'm', 0, 59, is_int=True), fresh_real(pre + 's', 0, 60)
+            core.CTX.assume(sec < 60)
+            return ga.DMSAngle(d, m, sec, positive=True)
+        m = fresh_real(pre + 'mm', 0, 60)
+        core.CTX.assume(m < 60)
+        return ga.DDMAngle(d, m, positive=True)
+    for cls, sub in combos:
+        if only_cls is not None and cls != only_cls:
+            continue
+
+        def run():
+            a_, invf_, ell = sym_ell(gc)
+            vals = [fresh_real('lat1', 0, 80), fresh_real('lon1', 0, 170), fresh_real('az', 0, 350)]
+            args = list(vals)
+            for k in sub:
+                args[k] = obj(cls, 'a%d_' % k, 0, (80, 170, 350)[k])
+            decs = [a.dec() if hasattr(a, 'dec') else a for a in args]
+            dist = fresh_real('s', 1, 20000000)
+            return gd.vincdir(args[0], args[1], args[2], dist, ell), gd.vincdir(decs[0], decs[1], decs[2], dist, ell)
+        with patched_angles(ga):
+            paths, st = explore(run, loop_bound=2, max_decisions=30, max_paths=12)
+        label = 'vincdir with %s as %s' % ('/'.join(('lat1', 'lon1', 'azimuth')[k] for k in sub), cls)
+        mk = lambda env, cls=cls, sub=sub: {'cls': cls, 'positions': list(sub)}
+        nret = 0
+        for p in paths:
+            if p.kind == 'cut':
+                continue
+            if p.kind == 'raise':
+                out.append(ob.decide_goal('O3', '%s: no exception (%s: %s)' % (label, type(p.value).__name__, p.value), ob.path_conds(p), z3.BoolVal(False),
+                                          pid=PID, oracle='oracles.c04:argforms', args_from_model=mk, key='O3:argforms', timeout_s=QT[tier]))
+                continue
+            nret += 1
+            ra, rb = p.value
+            goal = z3.And(*[same(x, y) for x, y in zip(ra, rb)])
+            out.append(ob.decide_goal('O3', '%s = vincdir of the decimal-degree values' % label, ob.path_conds(p), goal, pid=PID,
+                                      oracle='oracles.c04:argforms', args_from_model=mk, key='O3:argforms', timeout_s=QT[tier]))
+        if nret == 0:
+            out.append(ob.res('O3', label, 'inconclusive', [], 'no returning path within the unrolling'))
+    return out
+
+
+def c_keep(i, seed):
+    return True
+
+
 def groups(tier):
-    return [('direct', g_direct), ('direct_objects', g_direct_objects), ('cap', g_cap)]
+    gs = [('direct', g_direct), ('direct_objects', g_direct_objects), ('cap', g_cap)]
+    for c in ('HPAngle', 'GONAngle', 'DMSAngle', 'DDMAngle', 'DECAngle'):
+        gs.append(('argforms_%s' % c, (lambda c: (lambda tier, seed: g_argforms(tier, seed, c)))(c)))
+    return gs
